@@ -228,7 +228,7 @@ class C11(Check):
             '(MSG_ and AST_: Hamming balls of radius 3 around 0 and around all-bits in quick, the full 2^22 / 2^24 in thorough); '
             'open flags (3 call sites): every subset of 12 flag bits + 2 access-mode bits + 2 undeclared; file modes (3 call '
             'sites): every subset of the 12 permission bits x all 16 values of the S_IFMT field x 1 undeclared bit; packed fields '
-            '(VM_PROT byte: all 256 values; KPERF_TI 16-bit field); ioctl: all 2^16 values of the high half x 4 low halves and of '
+            '(VM_PROT byte: all 256 values, also as shown by page-fault traces in pairs of windows; KPERF_TI 16-bit field); ioctl: all 2^16 values of the high half x 4 low halves and of '
             'the low half x 8 high halves. Oracle: shown names subset of Darwin names whose value intersects the word; every '
             'declared name (frozen enum names) whose Darwin bit is set is shown; multi-bit fields show exactly Darwin\'s name for '
             'the value; ioctl fields invert _IOC. Distinct by construction; non-trivial = at least two declared bits set (or, for '
@@ -261,6 +261,7 @@ class C11(Check):
         for site in STAT_SITES:
             for t in range(16):
                 out.append(('stat', site, t))
+        out.append(('vmprot-pairs',))
         for k in range(4):
             out.append(('ioctl', 'hi', k))
         for k in range(8):
@@ -292,6 +293,29 @@ class C11(Check):
                     acc.violation(f'{bad[0]}@{fam}', {'kind': 'fam', 'family': fam, 'word': hex(w)}, bad[1])
                 elif acc.want_sample() and bin(w).count('1') == 3:
                     acc.sample({'family': fam, 'word': hex(w)})
+        elif kind == 'vmprot-pairs':
+            # protection names shown by a page-fault trace come from ITS OWN window: a fault whose window carries no protection
+            # word (no nested record / an undecoded one) after a fault that had one, on the same thread and parser
+            for p1 in range(256):
+                for second in ((), ('RealFaultAddressPurgeable',)):
+                    evs = [E.ev('MACH_vmfault', 1, (1, 2, 0, 0)), E.ev('RealFaultAddressInternal', 0, (9, (7 << 16) | (p1 << 8) | 2, 5, 6)),
+                           E.ev('MACH_vmfault', 2, (0, 0, 0, 2)), E.ev('MACH_vmfault', 1, (1, 3, 0, 0))] + \
+                          [E.ev(k, 0, (9, (7 << 16) | (0xff << 8) | 2, 5, 6)) for k in second] + [E.ev('MACH_vmfault', 2, (0, 0, 0, 2))]
+                    try:
+                        out = [t for t in TracesParser(E.codes(), {}, {}).feed_generator(E.restamp(evs)) if type(t).__name__ == 'MachVmfault']
+                        t1, t2 = E.stable_str(out[0]), E.stable_str(out[1])
+                        bad = None
+                        shown1 = set(re.findall(r'\bVM_PROT_[A-Z_]+\b', t1))
+                        exp1 = {n for n, v in DW.VM_PROT.items() if v and v & p1 and n != 'VM_PROT_WANTS_COPY'} or {'VM_PROT_NONE'}
+                        if shown1 != exp1:
+                            bad = ('name-shown-for-bit-not-set' if shown1 - exp1 else 'declared-set-bit-not-shown', {'text': t1, 'prot': hex(p1)})
+                        elif re.findall(r'\bVM_PROT_[A-Z_]+\b', t2):
+                            bad = ('name-shown-for-bit-not-set', {'text': t2, 'note': 'this window carries no protection word'})
+                    except Exception as ex:
+                        bad = ('raised:' + type(ex).__name__, {'error': repr(ex)[:200]})
+                    acc.case(nontrivial=True, transitions=6)
+                    if bad:
+                        acc.violation(f'{bad[0]}@VM_PROT@vmfault-pairs', {'kind': 'vmprot-pairs', 'prot': p1, 'second': list(second)}, bad[1])
         elif kind == 'open':
             _, site, mode = desc
             dec = declared('bsd.BscOpenFlags')
@@ -331,6 +355,11 @@ class C11(Check):
 
     def replay(self, case):
         k = case['kind']
+        if k == 'vmprot-pairs':
+            from mc.run import Acc
+            acc = Acc()
+            self.run_shard(('vmprot-pairs',), acc)
+            return [(sig, v['cases'][0][1]) for sig, v in acc.violations.items()]
         if k == 'fam':
             bad = judge_family(case['family'], int(case['word'], 16))
             return [(f"{bad[0]}@{case['family']}", bad[1])] if bad else []
